@@ -1,8 +1,158 @@
 import Req.Driver.Proto
-/-! Driver lanes of C11. -/
+import Req.Client.Redirect
+import Req.Client.Authority
+/-! Driver lanes of C11 (redirect policies). -/
 namespace Req.Driver.L.C11
-open Req.Proto
+open Req.Proto Req.Redirect
 
-def lanes : List (String × (List String → String)) := []
+def b01 (b : Bool) : String := if b then "1" else "0"
+
+/-- `c11split <hostport>` → legacy `net.SplitHostPort` model. -/
+def laneSplit : List String → String
+  | [hp] =>
+    match decodeHex hp with
+    | some s =>
+      match Legacy.netSplitHostPort s with
+      | .ok (h, p) => "ok " ++ encodeHex h ++ " " ++ encodeHex p
+      | .error .missingPort => "err missing-port"
+      | .error .tooManyColons => "err too-many-colons"
+      | .error .missingBracket => "err missing-bracket"
+      | .error .unexpectedOpen => "err unexpected-open"
+      | .error .unexpectedClose => "err unexpected-close"
+    | none => "bad-op"
+  | _ => "bad-op"
+
+/-- `c11host <authority>` → repaired getHostname, getDomain. -/
+def laneHost : List String → String
+  | [a] =>
+    match decodeHex a with
+    | some s => encodeHex (getHostname s) ++ " " ++ encodeHex (getDomain s)
+    | none => "bad-op"
+  | _ => "bad-op"
+
+/-- `c11legacy <authority>` → pre-fix getHostname, getDomain. -/
+def laneLegacy : List String → String
+  | [a] =>
+    match decodeHex a with
+    | some s => encodeHex (Legacy.getHostname s) ++ " " ++ encodeHex (Legacy.getDomain s)
+    | none => "bad-op"
+  | _ => "bad-op"
+
+/-- `c11ip <text>` → model isIPv4, spec IPv4address, spec IPv6address. -/
+def laneIP : List String → String
+  | [a] =>
+    match decodeHex a with
+    | some s => b01 (isIPv4 s) ++ " " ++ b01 (Req.Authority.isIPv4address s) ++ " " ++
+        b01 (Req.Authority.isIPv6address s)
+    | none => "bad-op"
+  | _ => "bad-op"
+
+def decodePort (s : String) : Option (Option Bytes) :=
+  if s == "none" then some none else (decodeHex s).map some
+
+/-- `name <labels> <0|1 dot> <port>` | `ip4 <4 octets> x <port>` | `ip6 <addr> <zone|none> <port>` -/
+def decodeAuthority : List String → Option Req.Authority.Authority
+  | ["name", ls, dot, port] => do
+    let ls ← decodeList ls
+    let p ← decodePort port
+    pure ⟨.name ls (dot == "1"), p⟩
+  | ["ip4", os, _, port] => do
+    let os ← decodeList os
+    let p ← decodePort port
+    match os with
+    | [a, b, c, d] => pure ⟨.ip4 a b c d, p⟩
+    | _ => none
+  | ["ip6", addr, zone, port] => do
+    let a ← decodeHex addr
+    let z ← decodePort zone
+    let p ← decodePort port
+    pure ⟨.ip6 a z, p⟩
+  | _ => none
+
+/-- `c11spec <structured authority>` → render, specHost, specDomain, rfc?, and the model's
+getHostname/getDomain of the rendering. -/
+def laneSpec (args : List String) : String :=
+  match decodeAuthority args with
+  | some a =>
+    let r := a.render
+    encodeHex r ++ " " ++ encodeHex (Req.Authority.specHost a) ++ " " ++
+      encodeHex (Req.Authority.specDomain a) ++ " " ++ b01 (Req.Authority.isRfc3986 a) ++ " " ++
+      encodeHex (getHostname r) ++ " " ++ encodeHex (getDomain r)
+  | none => "bad-op"
+
+/-! ### policies -/
+
+def decodePolicyDesc (s : String) : Option PolicyDesc :=
+  match s.splitOn ":" with
+  | ["nil"] => some .nil
+  | ["no"] => some .no
+  | ["samehost"] => some .sameHost
+  | ["samedomain"] => some .sameDomain
+  | ["max", n] => (decodeInt n).map .max
+  | ["ahost", l] => (decodeList l).map .allowedHost
+  | ["adomain", l] => (decodeList l).map .allowedDomain
+  | ["copy", l] => (decodeList l).map .alwaysCopy
+  | _ => none
+
+/-- The lanes evaluate compositions through `PolicyDesc.denote`, the same translation the
+header-flow theorems are stated over. -/
+def decodePolicies (s : String) : Option (List (Option Policy)) :=
+  if s == "-" then some [] else
+    ((s.splitOn ";").mapM decodePolicyDesc).map fun ds => ds.map PolicyDesc.denote
+
+/-- `k1,v1,k2,v2,…` (hex) → map entries in the given order. -/
+def pairUp : List Bytes → Option Headers
+  | [] => some []
+  | [_] => none
+  | k :: v :: rest => (pairUp rest).map fun r => (k, [v]) :: r
+
+def decodeHeaders (s : String) : Option Headers := (decodeList s) >>= pairUp
+
+def showDecision : Decision → String
+  | .allow => "allow"
+  | .deny => "deny"
+  | .useLast => "uselast"
+
+def showProbes (h : Headers) (probes : List Bytes) : String :=
+  if probes.isEmpty then "." else "/".intercalate (probes.map fun k => encodeList (h.values k))
+
+/-- `c11policy <policies> <req host> <via hosts> <req headers> <via[0] headers> <probe keys>`
+→ `<decision> <values of each probe key in req.Header afterwards>`. -/
+def lanePolicy : List String → String
+  | [ps, req, via, rh, vh, probes] =>
+    match decodePolicies ps, decodeHex req, decodeList via, decodeHeaders rh, decodeHeaders vh, decodeList probes with
+    | some ps, some req, some (v0 :: vs), some rh, some vh, some probes =>
+      let via : Via := { first := ⟨v0, vh⟩, rest := vs.map fun h => ⟨h, []⟩ }
+      let (d, h) := compose ps req rh via
+      showDecision d ++ " " ++ showProbes h probes
+    | _, _, _, _, _, _ => "bad-op"
+  | _ => "bad-op"
+
+def showOutcome : Outcome → String
+  | .final => "final"
+  | .refused k => "refused:" ++ toString k
+  | .lastResponse k => "last:" ++ toString k
+
+/-- `c11chain <policies> <h0> <targets> <initial headers> <probe keys>` →
+`<outcome> <hosts that were sent a request> <probe values per sent request>`. -/
+def laneChain : List String → String
+  | [ps, h0, ts, ih, probes] =>
+    match decodePolicies ps, decodeHex h0, decodeList ts, decodeHeaders ih, decodeList probes with
+    | some ps, some h0, some ts, some ih, some probes =>
+      let (sent, out) := runChain ps ⟨h0, ih⟩ ts
+      showOutcome out ++ " " ++ encodeList (sent.map (·.host)) ++ " " ++
+        ";".intercalate (sent.map fun h => showProbes h.hdr probes)
+    | _, _, _, _, _ => "bad-op"
+  | _ => "bad-op"
+
+def lanes : List (String × (List String → String)) := [
+  ("c11split", laneSplit),
+  ("c11host", laneHost),
+  ("c11legacy", laneLegacy),
+  ("c11ip", laneIP),
+  ("c11spec", laneSpec),
+  ("c11policy", lanePolicy),
+  ("c11chain", laneChain)
+]
 
 end Req.Driver.L.C11
